@@ -345,9 +345,10 @@ class Check:
             k = self.match_known(signature)
             if k is not None:
                 self.known_hits[signature] = self.known_hits.get(signature, 0) + 1
-                return
+                return False
         if len(self.violations) < 50:
             self.violations.append({"what": what, "replay": replay, "found": found, "signature": signature})
+        return True
 
     def add_samples(self, items, limit=6):
         for it in items:
@@ -521,9 +522,33 @@ def differential_blocks(check, blocks, impl_bin, oracle_block, label="histories"
         rc, il, ierr = run_lines(impl_bin, text, env_extra=impl_env)
         crashed = None
         if rc != 0 or len(il) != n:
-            rc, il, ierr = run_lines(impl_bin, text, env_extra=dict(impl_env or {}, VH_FLUSH="1"))
-            crashed = (rc, ierr[-1500:], len(il))
-            il = (il + ["<crash>"] * n)[:n]
+            # the harness died inside some history: locate the op (per-line flushing), mark the rest of THAT history
+            # `<crash>`, and carry on with the histories after it in a fresh process
+            il, rest, attempts = [], list(g), 0
+            while rest:
+                t2 = "\n".join("\n".join(b) for b in rest) + "\n"
+                n2 = sum(len(b) for b in rest)
+                rc, part, ierr = run_lines(impl_bin, t2, env_extra=dict(impl_env or {}, VH_FLUSH="1"))
+                if rc == 0 and len(part) == n2:
+                    il += part
+                    break
+                attempts += 1
+                if crashed is None:
+                    crashed = (rc, ierr[-1500:], len(il) + len(part))
+                part = part[:n2]
+                pos, k = 0, 0
+                while k < len(rest) and pos + len(rest[k]) <= len(part):
+                    pos += len(rest[k]); k += 1
+                if k >= len(rest):
+                    il += part
+                    break
+                blk = rest[k]
+                il += part[:pos] + (part[pos:] + ["<crash>"] * len(blk))[:len(blk)]
+                rest = rest[k + 1:]
+                if attempts >= 25:
+                    il += ["<notrun>"] * sum(len(b) for b in rest)   # too many crashing histories in this group: the rest is not executed
+                    break
+            il = (il + ["<notrun>"] * n)[:n]
         rc2, ml, merr = run_model(text)
         if rc2 != 0 or len(ml) != n:
             raise SystemExit(f"infrastructure error: model driver failed rc={rc2} lines={len(ml)}/{n} {merr[-500:]}")
@@ -543,17 +568,20 @@ def differential_blocks(check, blocks, impl_bin, oracle_block, label="histories"
             pos += len(b)
             n_ops += len(b)
             out.append((b, a, m))
+            if "<notrun>" in a:
+                continue
             fails = oracle_block(b, a)
             for idx, msg, sig in fails[:3]:
-                prop_fail += 1
-                check.fail(f"property oracle fails on the implementation at step {idx} of a history: {msg}",
-                           {"history": b[:idx + 1], "impl": a[:idx + 1], "model": m[:idx + 1], "oracle": msg}, signature=sig, found=True)
+                # a failure that is a listed known finding does not count: a correspondence break next to it is still reported
+                if check.fail(f"property oracle fails on the implementation at step {idx} of a history: {msg}",
+                              {"history": b[:idx + 1], "impl": a[:idx + 1], "model": m[:idx + 1], "oracle": msg}, signature=sig, found=True):
+                    prop_fail += 1
             if a != m:
                 k = next(i for i in range(len(b)) if a[i] != m[i])
                 n_mis += 1
                 if first_mis is None:
                     first_mis = {"history": b[:k + 1], "impl": a[:k + 1], "model": m[:k + 1]}
-        if crashed is not None:
+        if crashed is not None and not any("<crash>" in x for x in il):
             check.fail(f"harness terminated abnormally (rc={crashed[0]}) while running {label}", {"stderr_tail": crashed[1]},
                        signature="harness-crash:" + label, found=True)
     if n_mis and not prop_fail:
